@@ -67,7 +67,7 @@ def engine(pid, what, ref):
 
 engine("C01", "Worker limit and distinct worker slots per step.", "5/C01")
 engine("C02", "Exactly-once delivery to every accepting step, targets honoured, wait results not re-delivered, UnhandledEvent exactly for orphans.", "5/C02")
-engine("C12", "ctx.to_dict -> JSON -> Context.from_dict at EVERY prefix of explored schedules vs the uninterrupted continuation; stability of the serialized form.", "5/C12")
+engine("C12", "ctx.to_dict -> JSON -> Context.from_dict at EVERY prefix of explored schedules vs the uninterrupted continuation, a second pause on the resumed run; stability of the serialized form; PauseResume action of Engine.tla (Act_C12_* properties, replayed on the real engine); CtxLife.tla (context life cycle across runs).", "5/C12")
 engine("C31", "Timeout names the active steps and never hits a finished run; cancel stops further steps; cancelled context serializable and resumable.", "5/C31")
 engine("C03", "Queued work runs at full capacity; idle announced only when nothing can happen without external input.", "5/C03")
 engine("C05", "Retry budgets: executions = max(n,1), non-retryable once, stop_after_delay by real elapsed time, retry_info numbering, reported attempts/elapsed.", "5/C05")
@@ -76,7 +76,7 @@ engine("C08", "Exhausted failures go to the owning @catch_error handler within m
 engine("C09", "collect_events lists: as expected, each event in at most one list, no full set lost.", "5/C09")
 engine("C10", "wait_for_event: at most one completion/timeout per wait, right type and requirements, waiter_event once.", "5/C10")
 engine("C04", "One outcome, one matching terminal event, stream consumer terminates.", "5/C04")
-engine("C11", "Tick-log replay (real rebuild_state_from_ticks at every on_tick) equals the live runner state.", "5/C11")
+engine("C11", "Tick-log replay (real rebuild_state_from_ticks at every on_tick) equals the live runner state; the same live context inspected at every quiescence point (to_dict read back, running_steps).", "5/C11")
 engine("C35", "StepStateChanged telemetry alternates per worker slot, PREPARING only at capacity, InputRequired published once.", "5/C35")
 
 
@@ -175,7 +175,8 @@ reg("C23", "model_checking",
     "InputRequired/HumanResponse, StepFailedEvent, '-> None', unions, @catch_error scopes, workflow- and step-level skip "
     "sets) and checks on each that the declarative WellFormed/Hitl equals the implementation-shaped procedure; every graph "
     "is compiled to a real Workflow subclass and run through the constructor and validate(); Obs_C23 judges accepted <=> "
-    "WellFormed and flag = Hitl.",
+    "WellFormed and flag = Hitl.  Also (conformance evidence): the drawn representation of every graph (Repr operators of "
+    "Validate.tla vs representation/build.py) and the @step signature table StepSig.tla vs inspect_signature/validate_step_signature.",
     "Bounded instances; event nodes are exact classes; no resources are declared so resource validation is not exercised; "
     "reading decisions where the statement is silent are listed at the top of Validate.tla.",
     TABLE_TECH, "5/C23")
@@ -216,7 +217,9 @@ reg("C30", "model_checking",
     "TLC checks RunLimit.tla (per-instance asyncio.Semaphore with the FIFO/hand-off semantics of CPython 3.12, abort of "
     "queued runs) for N in 1..4, 4-6 runs, 2 instances: limit, accounting, no lost wake-up, clean-up, independence, "
     "liveness under weak fairness; real Workflow instances on the real BasicRuntime are explored exhaustively under the "
-    "virtual loop; every execution is validated by TLC against TraceRunLimit and judged by Obs_C30.",
+    "virtual loop; every execution is validated by TLC against TraceRunLimit and judged by Obs_C30.  RunLimitGen.tla models the "
+    "runtime's semaphore table across instance and event-loop lifetimes (address reuse); generations of real instances on ONE "
+    "runtime are judged per generation and validated against TraceRunLimitGen.",
     "Semaphore/runtime internals read for conformance only; verdicts from harness-owned step bodies; hard abort of executing "
     "runs excluded (outside the quantifier).",
     SCHED_TECH, "5/C30")
